@@ -188,3 +188,10 @@ CHECKS["C04"] = {
     "text": "quick: 2.8k corpus programs, 3.7k API tables, 1k nested-scope configurations, 1.3k BFS states / 6k transformation applications, 22 generated PSy layers (8.9k evaluations, 154 gfortran runs); thorough: 14k / 36k / 8k / 9.3k states. Every written unit must compile with implicit typing disabled, declare or import each referenced name exactly once, declare every entity before any declaration that depends on it, and rename clashing inner-scope symbols without capturing other references.",
     "note": "Signed-operand (C02) and directive-placement (C10) diagnostics are ignored here; OpenMP and OpenACC are never mixed in one history; a documented writer refusal is an allowed outcome, any other writer exception a violation. Fixed (6 defects, 4 commits): forward-referenced derived type lost, declaration dependency order (parameter shapes, argument bounds, component types), inner symbol capturing a module symbol, PSyData region scope symbols dropped.",
 }
+
+CHECKS["C26"] = {
+    "level": "fault_enumeration",
+    "technique": "enumeration of every concrete Transformation class found by introspection (78) x every target of the seed programs (statement nodes, expression nodes per structural context, consecutive child lists, ill-formed lists, non-nodes) x option singles/pairs/triples from the docstrings, plus fault injection: every nested validate/apply/SymbolTable.merge/rename_symbol call is re-run once with that call refusing; whenever TransformationError propagates the fingerprint (FortranWriter or psy.gen text + every symbol table + tree skeleton) must be unchanged",
+    "text": "quick: 857 work items, 376k plain attempts + 16k injected re-executions, 124k distinct non-trivial, 136 of 299 `raise TransformationError` sites reached; thorough: 4.85M attempts + 646k injections, 203 of 299 sites. PSyIR seeds for generic transformations, LFRic and GOcean PSy-layer seeds for domain transformations (incl. a module-inlined history).",
+    "note": "Only TransformationError is judged (other exception types are counted); injected refusals swallowed by try/except are counted; for PSy layers symbol tables are not part of the fingerprint (loop-bound symbols are created lazily by read-only queries). The quick tier hits an injection cap of 3 and an option-pair cap of 10 per target (exhaustive=false is reported). Open: verbose option leaves a comment before refusing; KernelModuleInlineTrans adds use statements before refusing; composite transformations keep applied sub-steps when a later nested call is MADE to refuse (injection only). Fixed: four non-atomic refusals.",
+}
